@@ -12,7 +12,7 @@
    Nothing is declared here: no Axiom/Parameter/Admitted. *)
 From Coq Require Import ZArith NArith Lia Reals Bool ZifyBool ZifyN.
 From Flocq Require Import Core IEEE754.Binary IEEE754.Bits.
-From TarsV Require Import Codec.Prim.
+From TarsV Require Import Codec.Prim Codec.PrimProofs.
 
 (* ---------- the three fields of a float32 pattern, exactly as widen32 computes them ---------- *)
 Definition fs (b : N) : N := (b / 2147483648)%N.            (* sign bit *)
@@ -233,6 +233,14 @@ Proof.
     change (radix2 ^ (e - e')) with (2 ^ (e - e')). symmetry. apply cond_Zopp_mul.
 Qed.
 
+(* the value clause on the decoder's pre-floats (Flocq's [binary_float_of_bits_aux], before validation): this form
+   avoids the validity proofs inside b32_of_bits/b64_of_bits and so needs only the axioms behind R itself *)
+Theorem widen32_value_FF b : (b < 4294967296)%N -> is_finite_FF (ff32 b) = true ->
+  is_finite_FF (ff64 b) = true /\ FF2R radix2 (ff64 b) = FF2R radix2 (ff32 b) /\ sign_FF (ff64 b) = sign_FF (ff32 b).
+Proof.
+  intros H F. destruct (widens_finite _ _ (widen32_widens b H) F) as (A & B & C & _). auto.
+Qed.
+
 (* (1) finite singles: same real value, same sign, finite; zero stays zero, non-zero stays non-zero *)
 Theorem widen32_finite b : (b < 4294967296)%N -> is_finite 24 128 (B32 b) = true ->
   is_finite 53 1024 (B64w b) = true /\
@@ -331,4 +339,140 @@ Proof.
   replace ((2 ^ 51 + nan_pl (B32 b) mod 2 ^ 22 * 2 ^ 29) / 2 ^ 51)%Z with 1%Z; [reflexivity|].
   apply (Z.div_unique _ _ _ (nan_pl (B32 b) mod 2 ^ 22 * 2 ^ 29)); [|lia].
   left. change (2^22)%Z with 4194304%Z in *. change (2^29)%Z with 536870912%Z. change (2^51)%Z with 2251799813685248%Z. lia.
+Qed.
+
+(* ---------- (4) injectivity away from NaNs: pure arithmetic on the patterns (no reals involved) ---------- *)
+Local Close Scope Z_scope.
+Local Open Scope N_scope.
+
+(* bit-level class tests *)
+Definition is_nan32 (b : N) : bool := (fe b =? 255) && negb (fm b =? 0).
+
+Lemma is_nan32_spec b : b < 4294967296 -> is_nan 24 128 (B32 b) = is_nan32 b.
+Proof.
+  intros H. rewrite <- is_nan_B2FF', B2FF_B32, (ff32_dec b H). destruct (fields_N b H) as (_ & _ & He & Hm).
+  unfold dec, is_nan32. change 0%Z with (Z.of_N 0). change 255%Z with (Z.of_N 255). rewrite !Zeq_bool_N.
+  destruct (fe b =? 0) eqn:E0.
+  - assert (E255 : (fe b =? 255) = false) by lia. rewrite E255. destruct (Z.of_N (fm b)) eqn:Em; try reflexivity; lia.
+  - destruct (fe b =? 255) eqn:E255.
+    + destruct (fm b) as [|p]; reflexivity.
+    + destruct (Z.of_N (fm b) + 2 ^ 23)%Z eqn:Ep; try reflexivity; lia.
+Qed.
+
+Lemma widen32_parts b1 b2 : b1 < 4294967296 -> b2 < 4294967296 -> widen32 b1 = widen32 b2 ->
+  fs b1 = fs b2 /\ we b1 = we b2 /\ wm b1 = wm b2.
+Proof.
+  intros H1 H2. rewrite !widen32_fields.
+  destruct (wm_we_range b1 H1), (wm_we_range b2 H2).
+  destruct (fields_N b1 H1) as (_ & ? & _), (fields_N b2 H2) as (_ & ? & _). lia.
+Qed.
+
+Lemma log2_fm' m : m < 8388608 -> m = 0 \/
+  (N.log2 m <= 22 /\ 2 ^ N.log2 m <= m /\ 2 ^ (52 - N.log2 m) <> 0).
+Proof.
+  intros H. destruct (N.eq_dec m 0) as [|NZ]; [now left|right].
+  destruct (log2_fm m ltac:(lia)) as (K & (L1 & _) & _). repeat split; try assumption.
+  apply N.pow_nonzero. lia.
+Qed.
+
+Theorem widen32_inj_non_nan b1 b2 : b1 < 4294967296 -> b2 < 4294967296 ->
+  is_nan32 b1 = false -> is_nan32 b2 = false -> widen32 b1 = widen32 b2 -> b1 = b2.
+Proof.
+  intros H1 H2 N1 N2 E. destruct (widen32_parts b1 b2 H1 H2 E) as (S & EE & EM).
+  destruct (fields_N b1 H1) as (D1 & _ & He1 & Hm1), (fields_N b2 H2) as (D2 & _ & He2 & Hm2).
+  enough (fe b1 = fe b2 /\ fm b1 = fm b2) by lia.
+  unfold is_nan32 in N1, N2. unfold we in EE. unfold wm in EM.
+  destruct (fe b1 =? 255) eqn:A1; destruct (fe b2 =? 255) eqn:A2; try lia;
+  destruct (fe b1 =? 0) eqn:B1; destruct (fe b2 =? 0) eqn:B2;
+  destruct (fm b1 =? 0) eqn:C1; destruct (fm b2 =? 0) eqn:C2; try lia;
+  destruct (log2_fm' (fm b1) Hm1) as [Z1|(K1 & L1 & P1)]; try lia;
+  destruct (log2_fm' (fm b2) Hm2) as [Z2|(K2 & L2 & P2)]; try lia.
+  (* the one non-linear case: both subnormal, same highest bit *)
+  assert (K : N.log2 (fm b1) = N.log2 (fm b2)) by lia. rewrite K in *.
+  apply N.mul_cancel_r in EM; [|assumption]. lia.
+Qed.
+
+(* the same with Flocq's NaN test *)
+Theorem widen32_inj b1 b2 : b1 < 4294967296 -> b2 < 4294967296 ->
+  is_nan 24 128 (B32 b1) = false -> is_nan 24 128 (B32 b2) = false -> widen32 b1 = widen32 b2 -> b1 = b2.
+Proof.
+  intros H1 H2 N1 N2. rewrite is_nan32_spec in N1, N2 by assumption. now apply widen32_inj_non_nan.
+Qed.
+
+(* on NaNs the map is NOT injective: the quiet bit of the input is forgotten, and only that *)
+Theorem widen32_nan_collision : is_nan32 2139095041 = true /\ is_nan32 2143289345 = true /\
+  widen32 2139095041 = widen32 2143289345.   (* 0x7F800001 (signalling) and 0x7FC00001 (quiet) *)
+Proof. repeat split; vm_compute; reflexivity. Qed.
+
+Theorem widen32_nan_eq_iff b1 b2 : b1 < 4294967296 -> b2 < 4294967296 ->
+  is_nan32 b1 = true -> is_nan32 b2 = true ->
+  (widen32 b1 = widen32 b2 <-> fs b1 = fs b2 /\ fm b1 mod 4194304 = fm b2 mod 4194304).
+Proof.
+  intros H1 H2 N1 N2. unfold is_nan32 in N1, N2.
+  assert (A1 : (fe b1 =? 255) = true) by lia. assert (A2 : (fe b2 =? 255) = true) by lia.
+  assert (C1 : (fm b1 =? 0) = false) by lia. assert (C2 : (fm b2 =? 0) = false) by lia.
+  split.
+  - intros E. destruct (widen32_parts b1 b2 H1 H2 E) as (S & _ & EM). unfold wm in EM.
+    rewrite A1, A2, C1, C2 in EM. lia.
+  - intros (S & EM). rewrite !widen32_fields. unfold we, wm. rewrite A1, A2, C1, C2, S, EM. reflexivity.
+Qed.
+
+(* ---------- composed with the reader: a FLOAT field read by ReadFloat64 ---------- *)
+Theorem read_f32_as_f64_value f tag req b rest : tag < 256 -> b < 4294967296 ->
+  is_finite 24 128 (b32_of_bits (Z.of_N b)) = true ->
+  exists d, r_f64 (S f) tag req (w_f32 b tag ++ rest) = ROk d rest /\ d < 18446744073709551616 /\
+    is_finite 53 1024 (b64_of_bits (Z.of_N d)) = true /\
+    B2R 53 1024 (b64_of_bits (Z.of_N d)) = B2R 24 128 (b32_of_bits (Z.of_N b)) /\
+    Bsign 53 1024 (b64_of_bits (Z.of_N d)) = Bsign 24 128 (b32_of_bits (Z.of_N b)).
+Proof.
+  intros Ht Hb F. exists (widen32 b). split; [now apply widen_f32_f64|]. split; [now apply widen32_range|].
+  destruct (widen32_finite b Hb F) as (A & B & C & _). auto.
+Qed.
+
+(* ---------- examples: the hypotheses are satisfiable, and known IEEE-754 answers ---------- *)
+From Coq Require Import List.
+Import ListNotations.
+(* finite inputs: smallest subnormal 2^-149, largest subnormal, smallest normal, 1.0, largest finite, -0, -pi *)
+Example finite_instances :
+  forallb (fun b => is_finite 24 128 (B32 b))
+    [1; 8388607; 8388608; 1065353216; 2139095039; 2147483648; 3226013659]%list = true.
+Proof. vm_compute. reflexivity. Qed.
+Example strict_instances :
+  forallb (fun b => is_finite_strict 24 128 (B32 b)) [1; 8388607; 8388608; 1065353216; 2139095039; 3226013659]%list = true.
+Proof. vm_compute. reflexivity. Qed.
+Example zero_instances : B32 0 = B754_zero 24 128 false /\ B32 2147483648 = B754_zero 24 128 true.
+Proof. split; apply B2FF_inj; vm_compute; reflexivity. Qed.
+Example infinity_instances :
+  B32 2139095040 = B754_infinity 24 128 false /\ B32 4286578688 = B754_infinity 24 128 true.
+Proof. split; apply B2FF_inj; vm_compute; reflexivity. Qed.
+Example nan_instances : forallb (fun b => is_nan 24 128 (B32 b)) [2139095041; 2143289344; 4290772992; 4294967295]%list = true.
+Proof. vm_compute. reflexivity. Qed.
+(* known answers (hex in the comment): what every IEEE-754 conversion gives for these singles *)
+Example known_answers :
+  widen32 1 = 3936146074321813504 /\              (* 00000001 -> 36A0000000000000 : 2^-149 *)
+  widen32 8388607 = 4039728864677593088 /\        (* 007FFFFF -> 380FFFFFC0000000 *)
+  widen32 8388608 = 4039728865751334912 /\        (* 00800000 -> 3810000000000000 : 2^-126 *)
+  widen32 1065353216 = 4607182418800017408 /\     (* 3F800000 -> 3FF0000000000000 : 1.0 *)
+  widen32 2139095039 = 5183643170566569984 /\     (* 7F7FFFFF -> 47EFFFFFE0000000 : max float32 *)
+  widen32 2147483648 = 9223372036854775808 /\     (* 80000000 -> 8000000000000000 : -0 *)
+  widen32 4286578688 = 18442240474082181120 /\    (* FF800000 -> FFF0000000000000 : -inf *)
+  widen32 2143289344 = 9221120237041090560 /\     (* 7FC00000 -> 7FF8000000000000 : default quiet NaN *)
+  widen32 2139095041 = 9221120237577961472 /\     (* 7F800001 -> 7FF8000020000000 : sNaN, quieted *)
+  widen32 3226013659 = 13837628693603680256.      (* C0490FDB -> C00921FB60000000 : -pi as float32 *)
+Proof. vm_compute. repeat split. Qed.
+
+Theorem widen32_nan_collision' :
+  is_nan 24 128 (b32_of_bits 2139095041) = true /\ is_nan 24 128 (b32_of_bits 2143289345) = true /\
+  widen32 2139095041 = widen32 2143289345.
+Proof. repeat split; vm_compute; reflexivity. Qed.
+
+Example instances :
+  forallb (fun b => is_finite 24 128 (b32_of_bits (Z.of_N b)))
+    [1; 8388607; 8388608; 1065353216; 2139095039; 2147483648; 3226013659] = true /\
+  forallb (fun b => is_nan 24 128 (b32_of_bits (Z.of_N b))) [2139095041; 2143289344; 4290772992; 4294967295] = true /\
+  b32_of_bits 2139095040 = B754_infinity 24 128 false /\ b32_of_bits 4286578688 = B754_infinity 24 128 true /\
+  b32_of_bits 0 = B754_zero 24 128 false /\ b32_of_bits 2147483648 = B754_zero 24 128 true.
+Proof.
+  split; [exact finite_instances|]. split; [exact nan_instances|].
+  destruct infinity_instances, zero_instances. auto.
 Qed.
